@@ -479,3 +479,95 @@ fn verif_loom_flow_ids() {
     });
     std::println!("VERIF_LOOM scenario={raw_out} executions={}", states.load(core::sync::atomic::Ordering::Relaxed));
 }
+
+// ------------------------------------------------------------------------------------------
+// The task going away (future dropped) ‖ an application thread making a request
+// ------------------------------------------------------------------------------------------
+
+/// A transport on which nothing ever happens. Its destructor is a scheduling point: the task
+/// drops its transport between giving up the flow map and giving up its queues, and tokio's
+/// channels are not instrumented by loom, so this is where another thread gets to run.
+struct IdleWs;
+impl Drop for IdleWs {
+    fn drop(&mut self) {
+        loom::thread::yield_now();
+    }
+}
+impl crate::ws::WebSocket for IdleWs {
+    fn poll_ready_unpin(&mut self, _: &mut Context<'_>) -> Poll<crate::Result<()>> {
+        Poll::Pending
+    }
+    fn start_send_unpin(&mut self, _: crate::ws::Message) -> crate::Result<()> {
+        Ok(())
+    }
+    fn poll_flush_unpin(&mut self, _: &mut Context<'_>) -> Poll<crate::Result<()>> {
+        Poll::Pending
+    }
+    fn poll_close_unpin(&mut self, _: &mut Context<'_>) -> Poll<crate::Result<()>> {
+        Poll::Pending
+    }
+    fn poll_next_unpin(&mut self, _: &mut Context<'_>) -> Poll<Option<crate::Result<crate::ws::Message>>> {
+        Poll::Pending
+    }
+}
+
+/// The connection task's future is dropped (aborted, or its `JoinSet` dropped) on one thread
+/// while an application thread calls `new_stream_channel` / `request_bind` on the `Multiplexor`
+/// it still holds. Whatever the interleaving, the call returns (with `Closed`): the end of the
+/// connection is observed by every pending and every later operation.
+///
+/// Scenario `VERIF_LOOM_SCENARIO=abort,<task>,<call>`: task `u` = the task was never polled,
+/// `r` = it was running (polled once, parked on an idle transport); call `o` = open, `b` = bind.
+/// A call that never returns leaves its thread blocked for ever, which loom reports as a deadlock.
+#[test]
+fn verif_loom_abort_vs_request() {
+    let raw = std::env::var("VERIF_LOOM_SCENARIO").unwrap_or_else(|_| String::from("abort,u,o"));
+    let mut it = raw.split(',');
+    let _ = it.next();
+    let running = it.next() == Some("r");
+    let bind = it.next() == Some("b");
+    let states = alloc::sync::Arc::new(core::sync::atomic::AtomicU64::new(0));
+    let st2 = states.clone();
+    let raw_out = raw.clone();
+    let mut b = loom::model::Builder::new();
+    if let Ok(p) = std::env::var("VERIF_LOOM_PREEMPTION_BOUND") {
+        b.preemption_bound = p.parse().ok();
+    }
+    b.check(move || {
+        st2.fetch_add(1, core::sync::atomic::Ordering::Relaxed);
+        let rng = ScriptRng(alloc::collections::VecDeque::new(), 0);
+        let (mux, taskdata) = crate::Multiplexor::new_detailed::<IdleWs, NoClock>(
+            IdleWs,
+            crate::config::Options::new(),
+            rng,
+        );
+        let mut fut = alloc::boxed::Box::pin(taskdata.into_task());
+        if running {
+            let waker = futures_util::task::noop_waker();
+            let mut cx = Context::from_waker(&waker);
+            assert!(core::future::Future::poll(fut.as_mut(), &mut cx).is_pending());
+        }
+        let mux = alloc::sync::Arc::new(mux);
+        let mux2 = mux.clone();
+        let caller = loom::thread::spawn(move || {
+            loom::future::block_on(async {
+                if bind {
+                    mux2.request_bind(b"h", 1, crate::BindType::Stream).await.map(|_| ())
+                } else {
+                    mux2.new_stream_channel(b"h", 1).await.map(|_| ())
+                }
+            })
+        });
+        drop(fut);
+        let r = caller.join().unwrap();
+        assert!(
+            matches!(r, Err(crate::Error::Closed) | Ok(())),
+            "[{raw}] ABORT: the call returned {r:?}"
+        );
+        if let Ok(()) = r {
+            // only a bind request can resolve `Ok`: with `false`, from the task's `Drop`
+            assert!(bind, "[{raw}] ABORT: a stream was opened without a peer");
+        }
+    });
+    std::println!("VERIF_LOOM scenario={raw_out} executions={}", states.load(core::sync::atomic::Ordering::Relaxed));
+}
